@@ -89,9 +89,19 @@ def _body(cs, o0, o1, o2, k, reps):
         pass
 
     stops = [EndOfStream("stop-%d" % t) for t in range(3)]
+
+    class EmptyErr(Exception):
+        """falsy exception object whose class cannot be instantiated without arguments"""
+
+        def __init__(self, what):
+            Exception.__init__(self, what)
+
+        def __len__(self):
+            return 0
+
+    empties = [EmptyErr("empty-%d" % t) for t in range(3)]
     active = {}
 
-    @deco
     async def func(t, rep):
         # the context is entered before the body runs
         n_enter = sum(1 for e in log if e[0] == "enter")
@@ -106,7 +116,24 @@ def _body(cs, o0, o1, o2, k, reps):
             raise plain[t]
         if outcomes[t] == 3:
             raise stops[t]
+        if outcomes[t] == 4:
+            raise empties[t]
         return ("result", t, rep)
+
+    if P("method", False):
+        # the decorated coroutine function is a method called through an instance
+        holder_box = []
+
+        async def meth_impl(self, t, rep):
+            if not holder_box or self is not holder_box[0]:
+                W.bad("decorator:method-called-without-its-instance")
+            return await func(t, rep)
+
+        Holder = type("Holder", (), {"meth": deco(meth_impl)})
+        holder_box.append(Holder())
+        dfunc = holder_box[0].meth
+    else:
+        dfunc = deco(func)
 
     results = {}
 
@@ -121,7 +148,7 @@ def _body(cs, o0, o1, o2, k, reps):
                 log.append(("body-end", "direct", 0))
         for rep in range(reps):
             try:
-                out.append(("ok", await func(t, rep)))
+                out.append(("ok", await dfunc(t, rep)))
             except Exception as e:
                 out.append(("exc", e))
         results[t] = out
@@ -143,7 +170,7 @@ def _body(cs, o0, o1, o2, k, reps):
         if t in results:
             for rep, r in enumerate(results[t]):
                 if outcomes[t] >= 1:
-                    want = faults[t] if outcomes[t] == 1 else (plain[t] if outcomes[t] == 2 else stops[t])
+                    want = faults[t] if outcomes[t] == 1 else (plain[t] if outcomes[t] == 2 else (stops[t] if outcomes[t] == 3 else empties[t]))
                     if kind == "suppressing":
                         if r != ("ok", None):
                             ok = fail("decorator:suppressed-exception-not-suppressed", (t, r)) and ok
@@ -180,7 +207,7 @@ def _body(cs, o0, o1, o2, k, reps):
         enters = [e[1] for e in log if e[0] == "enter"]
         if not cancelled:
             got_faults = [v for v in exits.values() if v is not None]
-            want = [(faults[t] if outcomes[t] == 1 else (plain[t] if outcomes[t] == 2 else stops[t])) for t in range(NT) if outcomes[t] >= 1 for _ in range(reps)]
+            want = [(faults[t] if outcomes[t] == 1 else (plain[t] if outcomes[t] == 2 else (stops[t] if outcomes[t] == 3 else empties[t]))) for t in range(NT) if outcomes[t] >= 1 for _ in range(reps)]
             if len(got_faults) != len(want) or any(not any(g is w for w in want) for g in got_faults):
                 ok = fail("decorator:exit-did-not-receive-body-exception", (got_faults, want)) and ok
             if sorted(exits) != sorted(enters):
@@ -220,7 +247,8 @@ def jobs(tier):
 
     for kind in ("generator", "decorator-class", "suppressing"):
         add(kind=kind, T=2, ES=1, BS=1, XS=1)
-        add(kind=kind, T=1, ES=1, BS=1, XS=1, REPS=3, OUT=3)
+        add(kind=kind, T=1, ES=1, BS=1, XS=1, REPS=3, OUT=4)
+        add(kind=kind, T=2, ES=0, BS=1, XS=0, OUT=1, method=True)
         add(kind=kind, T=1, ES=1, BS=1, XS=1, REPS=2, OUT=1, direct=True)
         add(kind=kind, T=2, ES=0, BS=1, XS=0, OUT=1, direct=True)
         add(kind=kind, T=2, ES=1, BS=1, XS=1, K=3, OUT=1)
@@ -232,7 +260,7 @@ def jobs(tier):
 
 
 BOUNDS = {
-    "quick": "all interleavings of 2..3 concurrent calls of one decorated coroutine function with suspensions in enter, body and exit; body outcome return / raise an Exception subclass / raise exactly Exception / raise a StopAsyncIteration subclass per call (symbolic); the decorating manager object also entered directly once before the calls (direct jobs); generator parameters named func and self passed by keyword; manager created with positional and keyword arguments; manager built by contextmanager, a ContextDecorator subclass, or suppressing; 1..3 repeated sequential calls (symbolic count); first caller cancelled at its k-th suspension (k<=3)",
+    "quick": "all interleavings of 2..3 concurrent calls of one decorated coroutine function with suspensions in enter, body and exit; body outcome return / raise an Exception subclass / raise exactly Exception / raise a StopAsyncIteration subclass / raise a falsy exception object per call (symbolic); the decorated function also as a method called through its instance; the decorating manager object also entered directly once before the calls (direct jobs); generator parameters named func and self passed by keyword; manager created with positional and keyword arguments; manager built by contextmanager, a ContextDecorator subclass, or suppressing; 1..3 repeated sequential calls (symbolic count); first caller cancelled at its k-th suspension (k<=3)",
     "thorough": "3 calls with suspensions everywhere, 2 suspensions in the body, repeated concurrent calls",
 }
 OUTSIDE = ["more than 3 concurrent calls", "ContextDecorator subclasses that override _recreate_cm"]
